@@ -33,11 +33,11 @@ const verifDoc = `{"a":"s1","b":{"c":"s2","d":"s3"},"ids":["s4","s5","s6"],"n":7
 var verifLeaves = []verifLeaf{{"a", "s1"}, {"b.c", "s2"}, {"b.d", "s3"}, {"ids.0", "s4"}, {"ids.1", "s5"}, {"ids.2", "s6"}, {"n", "7"}}
 
 type verifFieldCfg struct {
-	name           string
-	ignore         []string
-	process        []string
-	maskProcess    []string
-	eligible       []bool // per leaf of verifLeaves: may the mask be applied?
+	name        string
+	ignore      []string
+	process     []string
+	maskProcess []string
+	eligible    []bool // per leaf of verifLeaves: may the mask be applied?
 }
 
 var verifFieldCfgs = []verifFieldCfg{
